@@ -1,7 +1,6 @@
 #!/usr/bin/env python3
 """Development tool: histories that end in a mate position and exercise the root's repetition guard.
   rep   : x M x' M' x  -> position with a forced mate in two whose ONLY keeping move is M (the guard fires: the opponent repeated)
-  norep : o1 M o2 M' o3 -> position in which M mates at once, the opponent did NOT repeat (the guard must not fire)
 Legality of every history is decided by the engine's own `position … moves …` and again at check time; the mates by the
 Lean solver at check time.   usage: tools/gen_history.py <seed> > corpus/C10_history.txt"""
 import os, random, sys
@@ -62,54 +61,10 @@ def main():
             if pc is None or pc.lower() == 'p' or sq(u[2:]) in b or sq(u[2:]) == sq(M[2:]): continue
             rb = dict(b); rb[sq(u[2:])] = rb.pop(sq(u[:2]))
             tests.append(("rep", f, tofen(rb, other), [inv(u), M, u, inv(M), inv(u)]))
-    # ---- norep: mate in one reached after three different moves of the opponent's king
-    m1 = []
-    for f, keep in corpus:                      # positions after a keeping move and a reply hold a mate in one
-        m1.append(f)
-    res, _ = core.run_rust([["new " + f + " 0 1", "playh " + k[0], "pushh %d" % r.randrange(1 << 30), "obs"] for f, k in corpus])
-    p1 = [o[3][0].split("|")[0] for o in res if o[3] and "|" in o[3][0]]
-    ans = searchchk.spec_queries(["spec_mate1 " + core.fen4(f) for f in p1])
-    for f in p1:
-        a = ans.get("spec_mate1 " + core.fen4(f)) or "0 "
-        mates = a.split(" ", 1)[1].split(",") if a.split(" ", 1)[1:] and a.split(" ", 1)[1] else []
-        b = board(f); side = f.split()[1]; other = 'b' if side == 'w' else 'w'
-        ok = [M for M in mates if len(M) == 4 and b.get(sq(M[:2]), 'p').lower() != 'p' and sq(M[2:]) not in b]
-        if len(mates) != 1 or not ok: continue
-        M = ok[0]
-        own = [p for p, c in b.items() if c.lower() != 'p' and (c.islower() if other == 'b' else c.isupper())]
-        a_, b_ = sq(M[:2]), sq(M[2:])
-
-        def origins(cur, p):
-            c = cur[p].lower()
-            if c == 'k':
-                cand = [(p[0] + dr, p[1] + dc) for dr in (-1, 0, 1) for dc in (-1, 0, 1) if (dr, dc) != (0, 0)]
-            elif c == 'n':
-                cand = [(p[0] + dr, p[1] + dc) for dr, dc in ((1, 2), (2, 1), (-1, 2), (-2, 1), (1, -2), (2, -1), (-1, -2), (-2, -1))]
-            else:
-                dirs = [(1, 0), (-1, 0), (0, 1), (0, -1)] if c == 'r' else [(1, 1), (1, -1), (-1, 1), (-1, -1)] if c == 'b' else \
-                    [(1, 0), (-1, 0), (0, 1), (0, -1), (1, 1), (1, -1), (-1, 1), (-1, -1)]
-                cand = []
-                for dr, dc in dirs:
-                    q = (p[0] + dr, p[1] + dc)
-                    while 0 <= q[0] < 8 and 0 <= q[1] < 8 and q not in cur and q not in (a_, b_):
-                        cand.append(q); q = (q[0] + dr, q[1] + dc)
-            return [q for q in cand if 0 <= q[0] < 8 and 0 <= q[1] < 8 and q not in cur and q not in (a_, b_)]
-
-        for _ in range(120):
-            cur = dict(b)
-            moves = []
-            good = True
-            for _ in range(3):
-                p = r.choice(own if not moves else [x for x in cur if cur[x].lower() != 'p' and (cur[x].islower() if other == 'b' else cur[x].isupper())])
-                og = origins(cur, p)
-                if not og: good = False; break
-                q = r.choice(og)
-                cur[q] = cur.pop(p)
-                moves.append(name(q) + name(p))
-            if not good or moves[0] == moves[2]: continue
-            o3, o2, o1 = moves
-            if o1 == o3: continue
-            tests.append(("norep", f, tofen(cur, other), [o1, M, o2, inv(M), o3]))
+    # (a "norep" family — the same piece shuffling M, M' while the opponent makes three different moves and M then mates —
+    # does not exist in practice: the square the king came from is covered in the mate, so the position before M' would
+    # have the king in check with the wrong side to move; the guard's must-not-fire case is covered by the shuffle
+    # histories of the C09 check instead)
     res, _ = core.run_rust([["position fen %s moves %s" % (R, " ".join(ms))] for _, f, R, ms in tests])
     seen = set()
     for (kind, f, R, ms), o in zip(tests, res):
